@@ -113,28 +113,48 @@ def make_settings(cx, params, **extra):
 
 # ------------------------------------------------------------------------------------------------
 class SaemInit(Spec):
-    """a step power outside (0.5, 1] is refused."""
+    """the complete constructor: a step power outside (0.5, 1] is refused; otherwise the memory-less phase lasts exactly
+    floor(frac * n_iter) iterations (no explicit count given) -- whether or not annealing is configured, for however many
+    annealing iterations."""
     target = ALGO + ".__init__"
+
+    def configs(self):
+        return [dict(annealing=a) for a in ("off", "frac", "count")]
 
     def setup(self, cx, cfg):
         power = cx.real("power")
         n_iter = cx.int("n_iter")
         frac = cx.real("frac")
-        params = {"n_iter": n_iter, "n_burn_in_iter_frac": frac, "burn_in_step_power": power,
-                  "annealing": {"do_annealing": False}}
+        ann = {"do_annealing": False}
+        if cfg["annealing"] != "off":
+            ann = {"do_annealing": True, "initial_temperature": cx.real("T0"), "n_plateau": cx.int("n_plateau"),
+                   "n_iter": cx.int("annealing_n_iter") if cfg["annealing"] == "count" else None,
+                   "n_iter_frac": cx.real("annealing_frac") if cfg["annealing"] == "frac" else None}
+        params = {"n_iter": n_iter, "n_burn_in_iter_frac": frac, "burn_in_step_power": power, "annealing": ann}
         settings = make_settings(cx, params)
         self_ = SymObj(algo_class())
-        return dict(args=(self_, settings), self=self_, power=power, n_iter=n_iter, frac=frac)
+        return dict(args=(self_, settings), self=self_, power=power, n_iter=n_iter, frac=frac, ann=ann)
 
     def pre(self, cx, st):
-        return [("n_iter >= 0", z(st["n_iter"]) >= 0)]
+        p = [("n_iter >= 0", z(st["n_iter"]) >= 0), ("0 <= frac <= 1", z3.And(z(st["frac"]) >= 0, z(st["frac"]) <= 1))]
+        if st["cfg"]["annealing"] == "frac":
+            p.append(("0 <= annealing fraction <= 1", z3.And(z(st["ann"]["n_iter_frac"]) >= 0, z(st["ann"]["n_iter_frac"]) <= 1)))
+        if st["cfg"]["annealing"] == "count":
+            p.append(("annealing iterations >= 0", z(st["ann"]["n_iter"]) >= 0))
+        return p
 
     def raises(self, cx, st):
         p = z(st["power"])
         return [(errors(), z3.Not(z3.And(p > 0.5, p <= 1)))]
 
     def post(self, cx, st, out):
-        return [("power kept", z(st["self"].f["algo_parameters"]["burn_in_step_power"]) == z(st["power"]))]
+        ap = st["self"].f["algo_parameters"]
+        got = ap["n_burn_in_iter"]
+        prod = z(st["frac"]) * z3.ToReal(z(st["n_iter"]))
+        return [("power kept", z(ap["burn_in_step_power"]) == z(st["power"])),
+                ("memory-less phase = floor(frac * n_iter) iterations, with or without annealing",
+                 z3.And(z3.ToReal(z(got)) <= prod, prod < z3.ToReal(z(got)) + 1)),
+                ("total number of iterations kept", z(ap["n_iter"]) == z(st["n_iter"]))]
 
 
 # ------------------------------------------------------------------------------------------------
